@@ -6,6 +6,7 @@ From Coq Require Import String List NArith ZArith Bool.
 From J5V.lib Require Import Outcome.
 From J5V.model Require Import RulesDecl RulesWrite.
 From J5V.gen Require Import RulesGen.
+From J5V.gen Require Id62Gen.
 Import ListNotations.
 
 Definition flag_values : list (option bool) := [None; Some false; Some true].
@@ -61,11 +62,83 @@ Lemma writer_int_arms_cover :
   = [(I32, false); (I32, true); (I64, false); (I64, true); (U32, false); (U32, true); (U64, false); (U64, true)].
 Proof. vm_compute. reflexivity. Qed.
 
-(* wrap_array emits repeated rules when the items carry a constraint or the
-   array declares rules *)
-Lemma writer_array_cond_agree : writer_array_cond = ArrItemsOrRules.
-Proof. reflexivity. Qed.
+(* ---- probing lemmas: each generated fact is compared with what the MODEL FUNCTION
+   does on probe inputs, not with a hand-typed constant ------------------------ *)
 
-Lemma writer_id62_agree : writer_id62_published = true.
-Proof. reflexivity. Qed.
+(* wrap_array / wrap_map: when is (buf.validate.field).repeated / .map emitted? probe
+   the four combinations (items constrained or not) x (rules declared or not) *)
+Definition probe_item (constrained : bool) : fieldw :=
+  FW KdString (if constrained then only_ty (CStr None None None false) else None) None None None.
+Definition classify_cond (emits : bool -> bool -> bool) : arr_cond :=
+  match emits false false, emits false true, emits true false, emits true true with
+  | false, true, true, true => ArrItemsOrRules
+  | false, false, true, true => ArrItemsOnly
+  | _, _, _, _ => ArrCondOther
+  end.
+Definition model_array_cond : arr_cond :=
+  classify_cond (fun items rules =>
+    is_some (fw_val (wrap_array (if rules then Some (AR None None None) else None) None (probe_item items)))).
+Definition model_map_cond : arr_cond :=
+  classify_cond (fun items rules =>
+    is_some (fw_val (wrap_map (if rules then Some (MR None None) else None) (probe_item items)))).
 
+Lemma writer_array_cond_agree : writer_array_cond = model_array_cond.
+Proof. vm_compute. reflexivity. Qed.
+Lemma writer_map_cond_agree : writer_map_cond = model_map_cond.
+Proof. vm_compute. reflexivity. Qed.
+
+(* key:id62 compiles to the published pattern: probe write_field *)
+Definition model_id62_published : bool :=
+  match write_field (EE [] None []) (TKey (Some KId62) None None) with
+  | Ok w => match fw_val w with
+            | Some (C false (Some (CStr None None (Some p) false))) => str_eqb p Id62Gen.pattern_string
+            | _ => false
+            end
+  | _ => false
+  end.
+Lemma writer_id62_agree : writer_id62_published = model_id62_published.
+Proof. vm_compute. reflexivity. Qed.
+
+(* checkIntegerBounds: the model's bound_ok has exactly the generated ranges (probed at
+   both ends and one beyond), every format is covered, and the three checks are those
+   write_int_rules makes *)
+Definition range_ok (a : ikind * Z * Z) : bool :=
+  match a with
+  | (k, lo, hi) => bound_ok k lo && bound_ok k hi && negb (bound_ok k (lo - 1)) && negb (bound_ok k (hi + 1))
+  end.
+Lemma writer_int_ranges_agree :
+  forallb range_ok writer_int_ranges = true /\
+  map (fun a => match a with (k, _, _) => k end) writer_int_ranges = [I32; I64; U32; U64].
+Proof. split; vm_compute; reflexivity. Qed.
+
+Definition model_checks_minimum_range : bool :=
+  negb (is_ok (write_int_rules I32 (IR (Some 3000000000%Z) None None None))).
+Definition model_checks_maximum_range : bool :=
+  negb (is_ok (write_int_rules I32 (IR None (Some 3000000000%Z) None None))).
+Definition model_checks_order : bool :=
+  negb (is_ok (write_int_rules I64 (IR (Some 2%Z) (Some 1%Z) None None))).
+Lemma writer_int_checks_agree :
+  writer_calls_check_integer_bounds = true /\
+  writer_checks_minimum_range = model_checks_minimum_range /\
+  writer_checks_maximum_range = model_checks_maximum_range /\
+  writer_checks_order = model_checks_order.
+Proof. repeat split; vm_compute; reflexivity. Qed.
+
+(* rules the writer reduces to nothing: probe write_field *)
+Definition model_float_rules_refused : bool := negb (is_ok (write_field (EE [] None []) (TFloat true true None))).
+Definition emits_typeless (t : fty) : bool :=
+  match write_field (EE [] None []) t with
+  | Ok w => match fw_val w with Some (C false None) => true | _ => false end
+  | _ => false
+  end.
+Definition model_timestamp_rules_empty : bool :=
+  match write_field (EE [] None []) (TTimestamp (Some (TSR (Some 5%Z) (Some 9%Z) (Some true) None)) None) with
+  | Ok w => match fw_val w with Some (C false (Some (CTimestamp NoUb NoLb))) => true | _ => false end
+  | _ => false
+  end.
+Lemma writer_reduced_rules_agree :
+  writer_float_rules_refused = model_float_rules_refused /\
+  writer_object_rules_empty = emits_typeless (TObject false (Some (OBR (Some 1%N) (Some 2%N)))) /\
+  writer_oneof_rules_empty = emits_typeless (TOneof true None) /\
+  writer_timestamp_rules_empty = model_timestamp_rules_empty.
+Proof. repeat split; vm_compute; reflexivity. Qed.
